@@ -98,10 +98,13 @@ class UntypedAtomic(AnyAtomicType):
             case None | str() | list():
                 return op(self.value, other)
             case AnyAtomicType():
-                if hasattr(other, 'make'):
-                    return op(type(other).make(self.value, parser=self.parser), other)
-                else:
-                    return op(type(other)(self.value), other)
+                try:
+                    if hasattr(other, 'make'):
+                        return op(type(other).make(self.value, parser=self.parser), other)
+                    else:
+                        return op(type(other)(self.value), other)
+                except ArithmeticError as err:
+                    raise ValueError(str(err)) from None  # decimal.InvalidOperation
             case _:
                 return cast(bool, NotImplemented)
 
